@@ -383,6 +383,82 @@ def entrypoint_cases(failures_add):
             failures_add("C02/worker-starts-only-after-inputs-arrived", desc, f"task {started_early[0][0]} started before {started_early[0][1]} was announced to the worker", "other")
         if died is None and ran != ["m", "s"] and not [m for m in sent if isinstance(m, TaskFailure)]:
             failures_add("C05/worker-never-sits-on-a-runnable-sequence", desc, f"ran {ran}, nothing reported, worker alive", "other")
+    # ---- the REAL runner.run inside the real main loop: a generator task that yields fewer values than it declares outputs.  Every declared
+    # output is awaited by someone (all are to be published): each must be handed to the memory layer, or the failure must be reported -
+    # a silent "success" leaves the controller waiting for the missing output for ever
+    for declared, yielded in ((d, k) for d in (2, 3, 4) for k in range(0, d)):
+        n += 1
+        outs = tuple(str(i) for i in range(declared))
+
+        def gen(k=yielded):
+            for i in range(k):
+                yield i
+        gdef = TaskDefinition(func=TaskDefinition.func_enc(gen), environment=[], entrypoint="", input_schema={}, output_schema={o: "Any" for o in outs})
+        job3 = JobInstance(tasks={"g": TaskInstance(definition=gdef, static_input_kw={}, static_input_ps={})}, edges=[])
+        ts = TaskSequence(worker=w, tasks=["g"], publish={DatasetId("g", o) for o in outs})
+        msgs = [ts, WorkerShutdown()]
+        wire = [ser_message(m) for m in msgs]
+        handled, sent = [], []
+
+        class Sock3:
+            def bind(self, a):
+                pass
+
+            def recv(self):
+                return wire.pop(0)
+
+        class Zmq3:
+            PULL = 1
+
+            class Context:
+                def socket(self, k):
+                    return Sock3()
+
+        class Mem3:
+            def __init__(self, *a):
+                pass
+
+            def __enter__(self):
+                return self
+
+            def __exit__(self, *a):
+                return False
+
+            def handle(self, ds, schema, value, publish):
+                handled.append((ds, publish))
+
+            def provide(self, ds, ann):
+                return 1
+
+            def pop(self, ds):
+                pass
+
+            def flush(self):
+                pass
+
+        class Pk3:
+            def __enter__(self):
+                return self
+
+            def __exit__(self, *a):
+                return False
+
+            def extend(self, e):
+                pass
+        saved = (ep.zmq, ep.Memory, ep.PackagesEnv, ep.callback, ep.logging.config.dictConfig)
+        ep.zmq, ep.Memory, ep.PackagesEnv, ep.callback = Zmq3, Mem3, Pk3, (lambda addr, m: sent.append(m))
+        ep.logging.config.dictConfig = lambda c: None
+        died = None
+        try:
+            ep.entrypoint(ep.RunnerContext(workerId=w, job=job3, callback="cb", param_source={"g": {}}))
+        except BaseException as e:  # noqa
+            died = e
+        finally:
+            ep.zmq, ep.Memory, ep.PackagesEnv, ep.callback, ep.logging.config.dictConfig = saved
+        missing = sorted(o for o in outs if DatasetId("g", o) not in {d for d, _ in handled})
+        if died is None and missing and not [m for m in sent if isinstance(m, TaskFailure)]:
+            failures_add("C05/task-short-of-declared-outputs-is-reported", {"declared_outputs": declared, "values_yielded": yielded},
+                         f"outputs {missing} were never produced, no TaskFailure was reported and the worker lives on: whoever waits for them waits for ever", "other")
     return n
 
 
